@@ -28,6 +28,7 @@ CONSTANTS
     MaxReverts,
     MaxReopens,     \* bound on close/reopen cycles
     AllowReadOnly,  \* a read-only open may follow a close
+    WithKids,       \* every footer also has child-collection footers (with their own segment mappings)
     Devs            \* deviations of the code from the intended design
 
 VARIABLES
@@ -45,10 +46,11 @@ VARIABLES
     pend,           \* upto of a failed round that the persister will retry (0: none)
     faults, crashes, reverts, reopens,
     nextSeq,        \* Store.nextFNameSeq: file sequence numbers are never reused while the store is open
+    leak,           \* files whose mappings are pinned for good by child-footer segments that were never released
     hist
 
-vars == <<nb, files, cur, open, ro, pc, snaps, rm, synced, errs, lastRound, pend, faults, crashes, reverts, reopens, nextSeq, hist>>
-view == <<nb, files, cur, open, ro, pc, snaps, rm, synced, errs, lastRound, pend, faults, crashes, reverts, reopens, nextSeq>>
+vars == <<nb, files, cur, open, ro, pc, snaps, rm, synced, errs, lastRound, pend, faults, crashes, reverts, reopens, nextSeq, leak, hist>>
+view == <<nb, files, cur, open, ro, pc, snaps, rm, synced, errs, lastRound, pend, faults, crashes, reverts, reopens, nextSeq, leak>>
 
 \* What batch n does to key k: "set" (value n), "del" or "none".  Batch n sets key
 \* ((n-1) % NKeys)+1 and, when n is even, deletes the next key, so that overwrites and
@@ -91,7 +93,15 @@ Tiles(f, segs, i, from) ==
 Readable(ft) == ft.file = 0 \/ Tiles(ft.file, ft.segs, 1, 0) = ft.upto
 
 Refs(f) == (IF cur.file = f THEN 1 ELSE 0) + Cardinality({i \in 1..MaxSnaps : snaps[i].file = f})
-          + (IF pc.k # "idle" /\ pc.f = f THEN 1 ELSE 0)
+          + (IF pc.k # "idle" /\ pc.f = f THEN 1 ELSE 0) + (IF f \in leak THEN 1 ELSE 0)
+
+\* Footer.DecRef releases the footer's own segment locations; the mappings of its
+\* ChildFooters are released too in the intended design.  As first written they were
+\* not: when the last reference to a footer with child footers goes, the file stays
+\* mapped (and open) for the rest of the process.
+LeakAfter(ft, cur2, snaps2) ==
+    IF WithKids /\ Dev("ChildFootersNotReleased") /\ ft.file # 0 /\ ft # cur2 /\ \A i \in 1..MaxSnaps : snaps2[i] # ft
+    THEN leak \cup {ft.file} ELSE leak
 
 MaxExisting(fs) == IF \E f \in 1..MaxFiles : fs[f].ex
                    THEN CHOOSE f \in 1..MaxFiles : fs[f].ex /\ \A g \in 1..MaxFiles : fs[g].ex => g <= f
@@ -109,7 +119,7 @@ Init ==
     /\ rm = {}
     /\ synced = 0 /\ errs = 0 /\ lastRound = "none" /\ pend = 0
     /\ faults = 0 /\ crashes = 0 /\ reverts = 0 /\ reopens = 0
-    /\ nextSeq = 1
+    /\ nextSeq = 1 /\ leak = {}
     /\ hist = <<>>
 
 Log(a, arg) == hist' = Append(hist, [act |-> a, arg |-> arg,
@@ -125,7 +135,7 @@ Log(a, arg) == hist' = Append(hist, [act |-> a, arg |-> arg,
 NewBatch ==
     /\ open /\ ~ro /\ pc.k = "idle" /\ nb < MaxBatches
     /\ nb' = nb + 1
-    /\ UNCHANGED <<files, cur, open, ro, pc, snaps, rm, synced, errs, lastRound, pend, faults, crashes, reverts, reopens, nextSeq>>
+    /\ UNCHANGED <<files, cur, open, ro, pc, snaps, rm, synced, errs, lastRound, pend, faults, crashes, reverts, reopens, nextSeq, leak>>
     /\ Log("NewBatch", [n |-> nb + 1, ops |-> [k \in 1..NKeys |-> BatchOp(nb + 1, k)]])
 
 -----------------------------------------------------------------------------
@@ -142,7 +152,7 @@ Begin(kind, splice) ==
     /\ kind # "partial" => splice = 0
     /\ pc' = [NoPc EXCEPT !.k = kind, !.s = 1, !.upto = IF pend > 0 THEN pend ELSE nb, !.splice = splice]
     /\ lastRound' = "none"
-    /\ UNCHANGED <<nb, files, cur, open, ro, snaps, rm, synced, errs, pend, faults, crashes, reverts, reopens, nextSeq>>
+    /\ UNCHANGED <<nb, files, cur, open, ro, snaps, rm, synced, errs, pend, faults, crashes, reverts, reopens, nextSeq, leak>>
     /\ Log("Begin", [kind |-> kind, splice |-> splice])
 
 \* step 1: startOrReuseFile / startFileLOCKED (create + persistHeader)
@@ -155,7 +165,7 @@ StepFile ==
             /\ files' = [files EXCEPT ![NextFile] = [ex |-> TRUE, recs |-> <<Hdr>>]]
             /\ pc' = [pc EXCEPT !.s = 2, !.f = NextFile]
             /\ nextSeq' = nextSeq + 1
-    /\ UNCHANGED <<nb, cur, open, ro, snaps, rm, synced, errs, lastRound, pend, faults, crashes, reverts, reopens, hist>>
+    /\ UNCHANGED <<nb, cur, open, ro, snaps, rm, synced, errs, lastRound, pend, faults, crashes, reverts, reopens, leak, hist>>
 
 \* step 2: persistSegments / writeSegments
 StepSeg ==
@@ -168,14 +178,14 @@ StepSeg ==
           THEN /\ files' = files /\ pc' = [pc EXCEPT !.s = 3, !.seg = 0]     \* nothing to write (idle compaction of one segment is refused earlier)
           ELSE /\ files' = Append2(pc.f, r)
                /\ pc' = [pc EXCEPT !.s = 3, !.seg = Len(Recs(pc.f)) + 1]
-    /\ UNCHANGED <<nb, cur, open, ro, snaps, rm, synced, errs, lastRound, pend, faults, crashes, reverts, reopens, nextSeq, hist>>
+    /\ UNCHANGED <<nb, cur, open, ro, snaps, rm, synced, errs, lastRound, pend, faults, crashes, reverts, reopens, nextSeq, leak, hist>>
 
 \* steps 3 and 5: persistFooter's syncs (skipped with NoSync)
 StepSync ==
     /\ pc.s \in {3, 5}
     /\ files' = IF NoSync THEN files ELSE SyncFile(files, pc.f)
     /\ pc' = [pc EXCEPT !.s = pc.s + 1]
-    /\ UNCHANGED <<nb, cur, open, ro, snaps, rm, synced, errs, lastRound, pend, faults, crashes, reverts, reopens, nextSeq, hist>>
+    /\ UNCHANGED <<nb, cur, open, ro, snaps, rm, synced, errs, lastRound, pend, faults, crashes, reverts, reopens, nextSeq, leak, hist>>
 
 NewSegs ==
     CASE pc.k = "append"  -> cur.segs \o (IF pc.seg = 0 THEN <<>> ELSE <<pc.seg>>)
@@ -188,7 +198,7 @@ StepFooter ==
     /\ LET prev == IF pc.k = "append" /\ pc.f = cur.file THEN cur.pos ELSE 0 IN
        files' = Append2(pc.f, Ftr(NewSegs, prev, pc.upto))
     /\ pc' = [pc EXCEPT !.s = 5, !.ftr = Len(Recs(pc.f)) + 1]
-    /\ UNCHANGED <<nb, cur, open, ro, snaps, rm, synced, errs, lastRound, pend, faults, crashes, reverts, reopens, nextSeq, hist>>
+    /\ UNCHANGED <<nb, cur, open, ro, snaps, rm, synced, errs, lastRound, pend, faults, crashes, reverts, reopens, nextSeq, leak, hist>>
 
 \* step 6: publish the footer; a full compaction schedules the old file for removal.
 StepSwap ==
@@ -200,6 +210,7 @@ StepSwap ==
     /\ pc' = NoPc
     /\ lastRound' = "ok"
     /\ pend' = 0
+    /\ leak' = LeakAfter(cur, cur', snaps)
     /\ UNCHANGED <<nb, files, open, ro, snaps, errs, faults, crashes, reverts, reopens, nextSeq>>
     /\ Log("RoundOk", [kind |-> pc.k])
 
@@ -208,7 +219,7 @@ RemoveFile(f) ==
     /\ f \in rm /\ files[f].ex /\ Refs(f) = 0
     /\ files' = [files EXCEPT ![f] = [ex |-> FALSE, recs |-> <<>>]]
     /\ rm' = rm \ {f}
-    /\ UNCHANGED <<nb, cur, open, ro, pc, snaps, synced, errs, lastRound, pend, faults, crashes, reverts, reopens, nextSeq, hist>>
+    /\ UNCHANGED <<nb, cur, open, ro, pc, snaps, synced, errs, lastRound, pend, faults, crashes, reverts, reopens, nextSeq, leak, hist>>
 
 -----------------------------------------------------------------------------
 (* I/O failures: the pending file operation of the round fails.  The write
@@ -236,7 +247,7 @@ IOFail ==
             \* a compaction file that was started is scheduled for removal
             /\ rm' = IF pc.k = "full" /\ pc.s > 1 THEN rm \cup {pc.f} ELSE rm
     /\ nextSeq' = IF pc.s = 1 THEN nextSeq + 1 ELSE nextSeq     \* createNextFileLOCKED consumes the sequence number first
-    /\ UNCHANGED <<nb, cur, open, ro, snaps, synced, crashes, reverts, reopens>>
+    /\ UNCHANGED <<nb, cur, open, ro, snaps, synced, crashes, reverts, reopens, leak>>
     /\ Log("IOFail", [kind |-> pc.k, step |-> pc.s, newfile |-> (pc.k = "full" \/ ~CanReuse),
                        pre |-> [j \in 1..(nb + 1) |-> ContentUpto(j - 1)]])
 
@@ -246,7 +257,7 @@ IOFail ==
 TakeSnap(i) ==
     /\ open /\ snaps[i] = NoFooter /\ cur.file # 0
     /\ snaps' = [snaps EXCEPT ![i] = cur]
-    /\ UNCHANGED <<nb, files, cur, open, ro, pc, rm, synced, errs, lastRound, pend, faults, crashes, reverts, reopens, nextSeq>>
+    /\ UNCHANGED <<nb, files, cur, open, ro, pc, rm, synced, errs, lastRound, pend, faults, crashes, reverts, reopens, nextSeq, leak>>
     /\ Log("TakeSnap", [id |-> i])
 
 \* SnapshotPrevious: the footer record the back-link points to.
@@ -256,12 +267,14 @@ Previous(i) ==
        IF ft.prev = 0 THEN snaps' = [snaps EXCEPT ![i] = NoFooter]
        ELSE LET r == Recs(ft.file)[ft.prev] IN
             snaps' = [snaps EXCEPT ![i] = [file |-> ft.file, pos |-> ft.prev, segs |-> r.segs, upto |-> r.upto, prev |-> r.prev]]
+    /\ leak' = LeakAfter(snaps[i], cur, snaps')
     /\ UNCHANGED <<nb, files, cur, open, ro, pc, rm, synced, errs, lastRound, pend, faults, crashes, reverts, reopens, nextSeq>>
     /\ Log("Previous", [id |-> i])
 
 CloseSnap(i) ==
     /\ snaps[i] # NoFooter
     /\ snaps' = [snaps EXCEPT ![i] = NoFooter]
+    /\ leak' = LeakAfter(snaps[i], cur, snaps')
     /\ UNCHANGED <<nb, files, cur, open, ro, pc, rm, synced, errs, lastRound, pend, faults, crashes, reverts, reopens, nextSeq>>
     /\ Log("CloseSnap", [id |-> i])
 
@@ -280,6 +293,7 @@ Revert(i) ==
           /\ synced' = ft.upto
     /\ reverts' = reverts + 1
     /\ pend' = 0
+    /\ leak' = LeakAfter(cur, cur', snaps)
     /\ UNCHANGED <<open, ro, pc, snaps, rm, errs, lastRound, faults, crashes, reopens, nextSeq>>
     /\ Log("Revert", [id |-> i])
 
@@ -295,6 +309,7 @@ CloseStore ==
     /\ rm' = {}
     /\ nb' = cur.upto        \* what was not persisted is gone with the collection
     /\ pend' = 0
+    /\ leak' = LeakAfter(cur, NoFooter, snaps)
     /\ UNCHANGED <<pc, snaps, synced, errs, lastRound, faults, crashes, reverts, reopens, nextSeq>>
     /\ Log("CloseStore", [x |-> 0])
 
@@ -351,7 +366,7 @@ Crash ==
     /\ pc' = NoPc /\ snaps' = [i \in 1..MaxSnaps |-> NoFooter] /\ rm' = {}
     /\ lastRound' = "none"
     /\ synced' = synced /\ pend' = 0
-    /\ UNCHANGED <<faults, reverts, reopens>>
+    /\ UNCHANGED <<faults, reverts, reopens>> /\ leak' = {}
     /\ LET Unsynced(f) == files[f].ex /\ \E i \in 1..Len(Recs(f)) : ~Recs(f)[i].sy
            Var == {f \in 1..MaxFiles : Unsynced(f)}
        IN \E ch \in [Var -> (0..MaxRecs) \X BOOLEAN] :
@@ -377,13 +392,13 @@ Reopen(readOnly) ==
     /\ Recover(files, readOnly, FALSE)
     /\ pc' = NoPc
     /\ reopens' = reopens + 1
-    /\ UNCHANGED <<snaps, rm, synced, lastRound, pend, faults, crashes, reverts>>
+    /\ UNCHANGED <<snaps, rm, synced, lastRound, pend, faults, crashes, reverts, leak>>
     /\ Log("Reopen", [ro |-> readOnly])
 
 \* A read-only store accepts Persist calls but does nothing.
 ReadOnlyPersist ==
     /\ open /\ ro
-    /\ UNCHANGED <<nb, files, cur, open, ro, pc, snaps, rm, synced, errs, lastRound, pend, faults, crashes, reverts, reopens, nextSeq>>
+    /\ UNCHANGED <<nb, files, cur, open, ro, pc, snaps, rm, synced, errs, lastRound, pend, faults, crashes, reverts, reopens, nextSeq, leak>>
     /\ Log("ReadOnlyPersist", [x |-> 0])
 
 -----------------------------------------------------------------------------
@@ -439,6 +454,11 @@ FullCompactionShape ==
 OldFilesGoAway == ~open => rm = {}
 OnlyCurrentFileAfterClose ==
     (~open /\ faults = 0 /\ crashes = 0) => Cardinality({f \in 1..MaxFiles : files[f].ex}) <= 1
+
+\* C15: once every handle and the store are closed nothing stays open or mapped, and
+\* while a handle is open its file exists (SnapFilesExist above).
+AllClosedAllReleased == (~open /\ \A i \in 1..MaxSnaps : snaps[i] = NoFooter) => (leak = {} /\ rm = {})
+NoPinnedFiles == leak = {}
 
 \* C12: the chain of back-links walks through the footers of the rounds since the
 \* last compaction, newest first.
